@@ -2156,6 +2156,12 @@ class SSHConnection(SSHPacketHandler, asyncio.Protocol):
     async def send_userauth_success(self) -> None:
         """Send a user authentication success response"""
 
+        self._send_userauth_success()
+        await self._report_auth_completed()
+
+    def _send_userauth_success(self) -> None:
+        """Send the success response and mark auth as complete"""
+
         self.logger.info('Auth for user %s succeeded', self._username)
 
         self.send_packet(MSG_USERAUTH_SUCCESS)
@@ -2168,6 +2174,9 @@ class SSHConnection(SSHPacketHandler, asyncio.Protocol):
 
         self._cancel_login_timer()
         self._set_keepalive_timer()
+
+    async def _report_auth_completed(self) -> None:
+        """Tell the application that auth completed successfully"""
 
         if self._owner: # pragma: no branch
             result = self._owner.auth_completed()
@@ -2621,7 +2630,12 @@ class SSHConnection(SSHPacketHandler, asyncio.Protocol):
                 return
 
             if not result:
-                await self.send_userauth_success()
+                # Incoming packets aren't processed until this request has
+                # been handled. Only wait for the response to be sent, and
+                # not for the application's auth_completed() to finish, as
+                # that might involve an exchange with the client.
+                self._send_userauth_success()
+                self.create_task(self._report_auth_completed())
                 return
 
         if not self._owner: # pragma: no cover
